@@ -68,6 +68,10 @@ Holds(c, m, v, now) ==
       [] c = "noBuffer"            -> m = "emptiness" => v.buffer = 0
       [] c = "drifted"             -> Eventual(m) => v.drifted = "True"
 
+\* Notes. "managed" is implied by the method conjuncts in every reachable world (Consolidatable / Drifted live on the
+\* NodeClaim), it is kept for the report of the failing cell.  "deleting" is Karpenter's notion (NodeClaim deleting,
+\* InstanceTerminating, marked by a running command); a Node object with a deletionTimestamp whose NodeClaim is not yet
+\* deleting is visible in the view (nodeDeleting) but deliberately not a conjunct (see the C07 report).
 \* conjuncts that depend on the pool only make sense when the pool is known
 Applies(c, v) == c \in {"poolKind", "consolidateAfterSet", "policy"} => (v.poolLabel /\ v.poolKnown)
 
